@@ -502,6 +502,43 @@ def UniqueNames (S : Suite) : Prop := ∀ t ∈ S.tests, ∀ t' ∈ S.tests, t.n
 number of tests plus one) -/
 def RankBound (S : Suite) (rk : Name → Nat) : Prop := ∀ t ∈ S.tests, rk t.name < S.fuel
 
+theorem countP_lt {α : Type} (p q : α → Bool) :
+    ∀ (l : List α), (∀ x ∈ l, p x = true → q x = true) → ∀ a ∈ l, q a = true → p a = false →
+      l.countP p < l.countP q
+  | [], _, a, ha, _, _ => by cases ha
+  | x :: xs, h, a, ha, hq, hp => by
+    have hxs : ∀ y ∈ xs, p y = true → q y = true := fun y hy => h y (List.mem_cons_of_mem _ hy)
+    have hle : xs.countP p ≤ xs.countP q := List.countP_mono_left hxs
+    rcases List.mem_cons.mp ha with rfl | ha'
+    · simp only [List.countP_cons, hq, hp]
+      simp only [if_true, Bool.false_eq_true, if_false]
+      omega
+    · have ih := countP_lt p q xs hxs a ha' hq hp
+      have hx := h x (List.mem_cons_self ..)
+      simp only [List.countP_cons]
+      cases hpx : p x
+      · simp only [Bool.false_eq_true, if_false]
+        split <;> omega
+      · simp only [hx hpx, if_true]
+        omega
+
+/-- every acyclicity rank can be replaced by one below the resolver's fuel: count the tests of smaller rank -/
+theorem rank_bounded (S : Suite) (rk : Name → Nat) (hrk : RankOK S rk) :
+    ∃ rk', RankOK S rk' ∧ RankBound S rk' := by
+  refine ⟨fun n => S.tests.countP (fun t => decide (rk t.name < rk n)), ?_, ?_⟩
+  · intro t ht s hs t' ht' hg hc
+    have hlt := hrk t ht s hs t' ht' hg hc
+    refine countP_lt _ _ S.tests ?_ t' ht' ?_ ?_
+    · intro x _ hx
+      simp only [decide_eq_true_eq] at hx ⊢
+      omega
+    · simpa using hlt
+    · simp
+  · intro t _
+    have := List.countP_le_length (p := fun t' : Test => decide (rk t'.name < rk t.name)) (l := S.tests)
+    simp only [Suite.fuel]
+    omega
+
 theorem PEdge_restrict_back (S : Suite) (al au : String → List String) (hsub : ∀ vm v, v ∈ al vm → v ∈ au vm)
     (hun : UniqueNames S) (rk : Name → Nat) (hrk : RankOK S rk) (hb : RankBound S rk)
     (sel : List RLine) (x y : Name × Asg) (hx : x ∈ (workerNodes S al sel).map Inst.bare)
